@@ -62,6 +62,15 @@ def run_jobs(jobs, nproc, budget_s):
     results = [None] * len(jobs)
     pending = list(range(len(jobs)))
     running = {}
+    retried = set()
+
+    def died(k, p):
+        """a worker that crashed (z3 can segfault when its watchdog interrupts it at the wrong moment) is run once more"""
+        if k not in retried:
+            retried.add(k)
+            pending.append(k)
+            return None
+        return dict(qual=jobs[k][1], obligations=[], infos=[], error='worker died without a result, twice (exit code %s)' % p.exitcode)
     while pending or running:
         while pending and len(running) < nproc:
             k = pending.pop(0)
@@ -76,7 +85,8 @@ def run_jobs(jobs, nproc, budget_s):
                 try:
                     results[k] = conn.recv()
                 except EOFError:
-                    results[k] = dict(qual=jobs[k][1], obligations=[], infos=[], error='worker died without a result (exit code %s)' % p.exitcode)
+                    p.join(5)
+                    results[k] = died(k, p)
                 p.join(5)
                 done.append(k)
             elif not p.is_alive():
@@ -87,7 +97,7 @@ def run_jobs(jobs, nproc, budget_s):
                     except EOFError:
                         results[k] = None
                 if results[k] is None:
-                    results[k] = dict(qual=jobs[k][1], obligations=[], infos=[], error='worker died without a result (exit code %s)' % p.exitcode)
+                    results[k] = died(k, p)
                 done.append(k)
             elif time.time() - t0 > budget_s:
                 p.terminate()
@@ -287,6 +297,18 @@ def main(argv=None):
             o = dict(name='exploration:replay-battery', line=None, backend='replay harness (bounded exploration)', verdict='refuted')
             violations.append((o, rel, res))
             lines.append('VIOLATION property=%s replay=%s obligation=exploration:replay-battery' % (pid, rel))
+    # thorough tier: CPython cross-check of the verifier's reading of Python on the loop-free functions of this property
+    # (pyvc/crosscheck.py): a disagreement is a fault of the CHECKER, never a verdict about lomond
+    crosscheck = None
+    if tier == 'thorough':
+        try:
+            p = subprocess.run([sys.executable, '-m', 'pyvc.crosscheck', '--property', pid, '--json'], capture_output=True, text=True,
+                               timeout=1200, cwd=VERIF, env=dict(os.environ, PYTHONPATH=ROOT + os.pathsep + VERIF))
+            crosscheck = json.loads(p.stdout.strip().splitlines()[-1]) if p.stdout.strip() else dict(error=p.stderr[-500:])
+        except Exception as e:      # noqa
+            crosscheck = dict(error='%s: %s' % (type(e).__name__, e))
+        for m in (crosscheck.get('mismatches') or []):
+            faults.append('encoding cross-check: interpreter and CPython disagree on %s (%s): %s' % (m.get('qual'), m.get('inputs'), '; '.join(m.get('problems', []))))
     wall = time.time() - t0
     bounded = [dict(name=o['name'], verdict='held on every enumerated case' if o['verdict'] == 'proved' else 'FAILED', method=o.get('backend'))
                for o in bounded_obls]
@@ -307,6 +329,7 @@ def main(argv=None):
                      for o in (obligations[:3] + obligations[len(obligations) // 2:len(obligations) // 2 + 2] + obligations[-2:])],
             bounded_stand_ins=bounded,
             exploration=exploration,
+            encoding_crosscheck=crosscheck,
             cvc5_second_opinions=len(second),
             source_root=ROOT,
         ),
@@ -324,6 +347,9 @@ def main(argv=None):
     if faults:
         for f in faults:
             print('CHECKER-FAULT property=%s %s' % (pid, f))
+        # a failing input replayed on the real code stands on its own, whatever else went wrong in the checker
+        if any(res.get('found') for _o, _rel, res in violations):
+            return 1
         return 3
     if violations:
         return 1
